@@ -149,7 +149,9 @@ impl Table {
                 )?;
             }
         }
-        Ok(())
+        // The writer may be buffered, and would swallow errors if it were left
+        // to flush itself when dropped.
+        writer.flush()
     }
 }
 
